@@ -12,6 +12,7 @@
 package mcp
 
 import (
+	"encoding/json"
 	"bytes"
 	"context"
 	"errors"
@@ -160,6 +161,12 @@ type pgWorld struct {
 	cs   *ClientSession
 	ss   *ServerSession
 	srvT *recTransport
+	// the client's own registry (roots): listed by a SECOND server over a legacy session of the same
+	// client (server-to-client roots/list does not exist in the latest protocol)
+	c     *Client
+	cs2   *ClientSession
+	ss2   *ServerSession
+	cliT2 *recTransport
 }
 
 func newPgWorld(pageSize int) (*pgWorld, error) {
@@ -173,7 +180,8 @@ func newPgWorld(pageSize int) (*pgWorld, error) {
 	if err != nil {
 		return nil, err
 	}
-	cs, err := NewClient(&Implementation{Name: "c", Version: "1"}, nil).Connect(ctx, t2, nil)
+	w.c = NewClient(&Implementation{Name: "c", Version: "1"}, nil)
+	cs, err := w.c.Connect(ctx, t2, nil)
 	if err != nil {
 		return nil, err
 	}
@@ -181,9 +189,35 @@ func newPgWorld(pageSize int) (*pgWorld, error) {
 	return w, nil
 }
 
+// second: the second session of the client, to a server that asks for the roots (connected on first use:
+// roots added and removed BEFORE the session exists are part of the histories)
+func (w *pgWorld) second() error {
+	if w.ss2 != nil {
+		return nil
+	}
+	ctx := context.Background()
+	s2 := NewServer(&Implementation{Name: "s2", Version: "1"}, &ServerOptions{Logger: slog.New(slog.DiscardHandler)})
+	t1, t2 := NewInMemoryTransports()
+	ss2, err := s2.Connect(ctx, t1, nil)
+	if err != nil {
+		return err
+	}
+	w.cliT2 = &recTransport{Transport: t2}
+	cs2, err := w.c.Connect(ctx, w.cliT2, &ClientSessionOptions{ProtocolVersion: protocolVersion20251125})
+	if err != nil {
+		return err
+	}
+	w.cs2, w.ss2 = cs2, ss2
+	return nil
+}
+
 func (w *pgWorld) close() {
 	w.cs.Close()
 	w.ss.Wait()
+	if w.cs2 != nil {
+		w.cs2.Close()
+		w.ss2.Wait()
+	}
 }
 
 var pgMember = map[string][2]string{ // method -> list member, uid member of an item
@@ -191,6 +225,7 @@ var pgMember = map[string][2]string{ // method -> list member, uid member of an 
 	"prompts/list":             {"prompts", "name"},
 	"resources/list":           {"resources", "uri"},
 	"resources/templates/list": {"resourceTemplates", "uriTemplate"},
+	"roots/list":               {"roots", "uri"},
 }
 
 func (w *pgWorld) add(method string, uids []string) string {
@@ -212,6 +247,8 @@ func (w *pgWorld) add(method string, uids []string) string {
 			w.s.AddResourceTemplate(&ResourceTemplate{Name: "t", URITemplate: u}, func(context.Context, *ReadResourceRequest) (*ReadResourceResult, error) {
 				return &ReadResourceResult{Contents: []*ResourceContents{}}, nil
 			})
+		case "roots/list":
+			w.c.AddRoots(&Root{URI: u})
 		default:
 			return "bad-op"
 		}
@@ -229,6 +266,8 @@ func (w *pgWorld) remove(method string, uids []string) string {
 		w.s.RemoveResources(uids...)
 	case "resources/templates/list":
 		w.s.RemoveResourceTemplates(uids...)
+	case "roots/list":
+		w.c.RemoveRoots(uids...)
 	default:
 		return "bad-op"
 	}
@@ -240,7 +279,17 @@ func (w *pgWorld) remove(method string, uids []string) string {
 func (w *pgWorld) list(method, cursor string) string {
 	ctx, cancel := context.WithTimeout(context.Background(), 10*time.Second)
 	defer cancel()
-	before := len(w.srvT.sent)
+	rec := w.srvT
+	if method == "roots/list" {
+		// the registry is the client's; the result is what the CLIENT writes
+		if err := w.second(); err != nil {
+			return "setup-error"
+		}
+		rec = w.cliT2
+	}
+	rec.mu.Lock()
+	before := len(rec.sent)
+	rec.mu.Unlock()
 	switch method {
 	case "tools/list":
 		w.cs.ListTools(ctx, &ListToolsParams{Cursor: cursor})
@@ -250,19 +299,24 @@ func (w *pgWorld) list(method, cursor string) string {
 		w.cs.ListResources(ctx, &ListResourcesParams{Cursor: cursor})
 	case "resources/templates/list":
 		w.cs.ListResourceTemplates(ctx, &ListResourceTemplatesParams{Cursor: cursor})
+	case "roots/list":
+		if cursor != "" {
+			return "bad-op"
+		}
+		w.ss2.ListRoots(ctx, nil)
 	default:
 		return "bad-op"
 	}
 	if ctx.Err() != nil {
 		return "hang"
 	}
-	w.srvT.mu.Lock()
-	n := len(w.srvT.sent)
-	w.srvT.mu.Unlock()
+	rec.mu.Lock()
+	n := len(rec.sent)
+	rec.mu.Unlock()
 	if n == before {
 		return "no-response"
 	}
-	v, err := parseJSON(w.srvT.last())
+	v, err := parseJSON(rec.last())
 	if err != nil {
 		return "unparsable"
 	}
@@ -445,6 +499,44 @@ func (w *wireWorld) apply3(kind string, p *tokStream, op string) string {
 			return o
 		}
 		return "x" + hx(b) + " " + o
+	case "ref.rt":
+		t, ok1 := p.str()
+		n, ok2 := p.str()
+		u, ok3 := p.str()
+		if !ok1 || !ok2 || !ok3 {
+			return "bad-op"
+		}
+		data, err := json.Marshal(&CompleteReference{Type: t, Name: n, URI: u})
+		if err != nil {
+			return "refused " + refErrTok(err)
+		}
+		v, perr := parseJSON(data)
+		if perr != nil {
+			return "unparsable"
+		}
+		var back CompleteReference
+		if err := json.Unmarshal(data, &back); err != nil {
+			return "ok " + v.tok() + " | err " + refErrTok(err)
+		}
+		return "ok " + v.tok() + " | " + refTok(back)
+	case "ref.dec":
+		v, ok := p.jv()
+		if !ok {
+			return "bad-op"
+		}
+		var r CompleteReference
+		if err := json.Unmarshal([]byte(v.text()), &r); err != nil {
+			return "err " + refErrTok(err)
+		}
+		data, err := json.Marshal(&r)
+		if err != nil {
+			return refTok(r) + " | refused " + refErrTok(err)
+		}
+		w, perr := parseJSON(data)
+		if perr != nil {
+			return "unparsable"
+		}
+		return refTok(r) + " | " + w.tok()
 	case "r.pg.new":
 		var ps int
 		if _, err := fmt.Sscanf(p.next(), "%d", &ps); err != nil || ps < 1 {
@@ -508,6 +600,68 @@ func (w *wireWorld) apply3(kind string, p *tokStream, op string) string {
 		return guarded(15*time.Second, func() string { return w.pg.list(method, cursor) })
 	}
 	return "bad-op"
+}
+
+// ------------------------------------------------------------------ the CompleteReference codec
+
+func refTok(r CompleteReference) string {
+	return fmt.Sprintf("ok s%s s%s s%s", hxs(r.Type), hxs(r.Name), hxs(r.URI))
+}
+
+func refErrTok(err error) string {
+	m := err.Error()
+	switch {
+	case strings.Contains(m, "must not have a URI"):
+		return "prompt-with-uri"
+	case strings.Contains(m, "must not have a Name"):
+		return "resource-with-name"
+	case strings.Contains(m, "unrecognized"):
+		return "unknown-type"
+	}
+	return "other"
+}
+
+var (
+	refTypes = []string{"ref/prompt", "ref/resource", "ref/prompt", "ref/resource", "", "ref/tool", "REF/PROMPT", "ref/prompt ", "prompt"}
+	refNames = []string{"", "", "p", "greet", "é", "a b", "file:///x"}
+	refURIs  = []string{"", "", "file:///x", "file:///t/{id}", "u", "p"}
+)
+
+// genRefJSON: a JSON value offered to CompleteReference.UnmarshalJSON: mostly objects with type / name / uri
+// members that are strings, null, absent or of another type, in any order, with unknown members and
+// members whose names differ in case only; sometimes no object at all.
+func genRefJSON(r *rand.Rand) (jv, []string) {
+	if r.Intn(12) == 0 {
+		return []jv{jNull(), jArr(), jStr("ref/prompt"), jInt(1), jBool(true)}[r.Intn(5)], []string{"ref:no-object"}
+	}
+	var mem []jmem
+	tags := []string{}
+	put := func(k string, vals []string) {
+		switch c := r.Intn(12); {
+		case c < 7:
+			mem = append(mem, jmem{k, jStr(vals[r.Intn(len(vals))])})
+		case c < 9: // absent
+		case c < 10:
+			mem = append(mem, jmem{k, jNull()})
+			tags = append(tags, "ref:null-member")
+		case c < 11:
+			mem = append(mem, jmem{k, []jv{jInt(1), jBool(false), jArr(), jObj()}[r.Intn(4)]})
+			tags = append(tags, "ref:mistyped-member")
+		default:
+			if f, ok := flipCase(k); ok {
+				mem = append(mem, jmem{f, jStr(vals[r.Intn(len(vals))])})
+				tags = append(tags, "ref:case-variant")
+			}
+		}
+	}
+	put("type", refTypes)
+	put("name", refNames)
+	put("uri", refURIs)
+	if r.Intn(4) == 0 {
+		mem = append(mem, jmem{"x-unknown", genJ(r, 1)})
+	}
+	r.Shuffle(len(mem), func(i, j int) { mem[i], mem[j] = mem[j], mem[i] })
+	return jObj(mem...), tags
 }
 
 // ------------------------------------------------------------------ generators: foreign event streams
@@ -676,8 +830,57 @@ func pgUID(method string, name string) string {
 		return "file:///" + name
 	case "resources/templates/list":
 		return "file:///t/" + name + "{?q}"
+	case "roots/list":
+		return "file:///roots/" + name
 	}
 	return name
+}
+
+// histories: a registry that is listed whole (the client's roots) through every kind of add / remove
+// history of up to n items: never touched; filled; emptied one by one (the LAST item removed), all at
+// once, by a removal that names absent items too; refilled; each state listed twice (a cached answer).
+func (g *pgGen) histories(method string, n int, connectFirst bool) {
+	step := g.step
+	var keys []string
+	for i := 0; i < n; i++ {
+		keys = append(keys, pgUID(method, pgNames[(i*5+n)%len(pgNames)]))
+	}
+	list := func(how string) {
+		step("r.pg.list "+method+" -", pgListTags(method, how)...)
+	}
+	step("r.pg.new 1")
+	if connectFirst {
+		list("untouched")
+	}
+	step("r.pg.rm "+method+" s"+hxs(pgUID(method, "absent")), "page:rm")
+	if connectFirst {
+		list("untouched")
+	}
+	if n == 0 {
+		list("untouched")
+		return
+	}
+	step("r.pg.add "+method+" "+sTok(keys), "page:add")
+	if connectFirst {
+		list("filled")
+	}
+	for i, k := range keys { // one by one, down to the last
+		step("r.pg.rm "+method+" s"+hxs(k), "page:rm")
+		if connectFirst || i == len(keys)-1 {
+			how := "shrunk"
+			if i == len(keys)-1 {
+				how = "emptied"
+			}
+			list(how)
+			list(how)
+		}
+	}
+	step("r.pg.add "+method+" "+sTok(keys), "page:add")
+	list("filled")
+	step("r.pg.rm "+method+" "+sTok(append([]string{pgUID(method, "absent")}, keys...)), "page:rm")
+	list("emptied")
+	step("r.pg.add "+method+" "+sTok(keys[:1]), "page:add")
+	list("filled")
 }
 
 var pgNames = []string{"A", "B9", "Z", "_x", "a", "a-", "a.b", "aa", "ab", "b", "k01", "k02", "k10", "k2", "m", "zz"}
@@ -818,6 +1021,7 @@ func (g *pgGen) random() {
 	}
 	last := map[string]string{} // method -> uid of the last issued cursor
 	has := map[string]bool{}
+	pgMethods := append(append([]string{}, pgMethods...), "roots/list") // the client's registry too (listed whole)
 	for _, m := range pgMethods {
 		keys[m] = map[string]bool{}
 		if r.Intn(4) > 0 {
@@ -866,6 +1070,7 @@ func (g *pgGen) random() {
 		default:
 			cur, how := "-", "none"
 			switch c := r.Intn(10); {
+			case m == "roots/list":
 			case c < 5 && has[m]:
 				cur, how = "c"+hxs(last[m]), "issued"
 			case c < 8:
